@@ -126,7 +126,11 @@ def gen_case(rng, idx, tier):
         if rng.random() < 0.3:
             script.insert(rng.randrange(len(script) + 1), {"op": "drop", "hard": rng.random() < 0.5})
         clients.append({"role": "abuser", "script": script})
-    return {"max_cores": rng.choice([1, 2, 3]), "tasks": tasks, "clients": clients, "adv_seed": rng.randrange(1 << 30), "cancels": 0, "bursts": rng.random() < 0.3, "exit_codes": [0, 0, 0, 1]}
+    return {"max_cores": rng.choice([1, 2, 3]), "tasks": tasks, "clients": clients, "adv_seed": rng.randrange(1 << 30), "cancels": 0, "bursts": rng.random() < 0.3, "exit_codes": [0, 0, 0, 1], "timeout_s": 10}
+
+
+def on_timeout(case, frames, timeout_s):
+    return poolcase.on_timeout(case, frames, timeout_s)
 
 
 def run_case(case):
